@@ -271,7 +271,34 @@ def check_request_typestate(rep, rid, core):
     from rules.common import Summaries
     sm = Summaries([core])
     fn_calls = sm.sites(f, ['core::ops::function::FnOnce::call_once'], 'must')
-    if len(sw) != 1 or 'ReadyToSend' not in vidx:
+    use_ts = (len(sw) != 1 or send is None) and 'ReadyToSend' in vidx
+    if use_ts:
+        # the state machine is not written as one match (helpers such as is_sent() / send_request() spliced in, the receiver polled before the
+        # state test): read it by a typestate walk of every path from each initial state of *self
+        from rules.props import c02 as _c02
+        ts = {v: [p_ for p_ in _c02.typestate_paths(core, f, norm(adt['path']), v) if p_['end'] == 'return'] for v in ('ReadyToSend', 'Sent')}
+        pr, ps_ = ts['ReadyToSend'], ts['Sent']
+        rep.expect(rid, bool(pr) and all(len(p_['calls']) == 1 and p_['final'] == 'Sent' for p_ in pr), 'ShellStream::poll_next|first-poll-sends',
+                   'from ReadyToSend every returning path runs the sending closure exactly once and leaves Sent behind',
+                   'command ShellStream::poll_next can return from the ReadyToSend state without sending the request effect (or sends twice, or stays ReadyToSend)')
+        rep.expect(rid, bool(ps_) and all(not p_['calls'] and p_['final'] == 'Sent' for p_ in ps_), 'ShellStream::poll_next|sent-never-resends',
+                   'from Sent no path reaches the sending closure or changes the state', 'command ShellStream::poll_next can send again from the Sent state')
+        # from Sent the value returned is the poll of the receiver
+        good_ret = bool(ps_)
+        for p_ in ps_:
+            defs_ = []
+            for bb in p_['blocks']:
+                t = f.blocks[bb]['t']
+                if t['k'] == 'call' and t['d']['l'] == 0 and not t['d']['p']:
+                    defs_.append(last_seg(t.get('callee') or '').startswith('poll'))
+                for st_ in f.blocks[bb]['st']:
+                    if st_['k'] == 'assign' and st_['d']['l'] == 0 and not st_['d']['p']:
+                        src = origins(f, st_['rv']['a']) if st_['rv']['k'] == 'use' else []
+                        defs_.append(bool(src) and all(o.kind == 'call' and last_seg(o.term.get('callee') or '').startswith('poll') for o in src))
+            good_ret = good_ret and bool(defs_) and all(defs_)
+        rep.expect(rid, good_ret, 'ShellStream::poll_next|sent-delegates', 'from Sent the poll of the receiver is returned',
+                   'command ShellStream::poll_next: from the Sent state something other than the poll of its receiver can be returned')
+    elif len(sw) != 1 or 'ReadyToSend' not in vidx:
         rep.bad(rid, 'ShellStream::poll_next|match', 'poll_next is no longer one match on the ReadyToSend / Sent state')
     else:
         sb, st = sw[0]
@@ -344,6 +371,11 @@ def check_request_typestate(rep, rid, core):
     calls = [(bb, t) for bb, t in host.calls('core::ops::function::FnOnce::call_once')]
     called = len(calls) == 1 and must_pass(host, calls[0][0]) and \
         all(any('as ReadyToSend' in p for p in x.suffix) for x in origins(host, calls[0][1]['args'][0]))
+    if use_ts and host is f:
+        # judged on the paths from ReadyToSend only (from Sent nothing is written): the LAST state written is the one holding the original receiver
+        keep = bool(pr) and all(p_['writes'] and p_['writes'][-1][0] in good for p_ in pr)
+        called = bool(pr) and all(len(p_['calls']) == 1 for p_ in pr) and len(calls) >= 1 and \
+            all(all(any('as ReadyToSend' in p for p in x.suffix) for x in origins(host, t_['args'][0])) and origins(host, t_['args'][0]) for _, t_ in calls)
     rep.expect(rid, keep, 'ShellStream::send|keeps-receiver', 'the Sent state stored into *self holds the receiver taken out of ReadyToSend',
                'command ShellStream::send: the state left behind does not hold the original receiver (responses would never arrive)')
     rep.expect(rid, called, 'ShellStream::send|calls-closure', 'the closure taken out of ReadyToSend is called on every path',
